@@ -4,7 +4,7 @@ from __future__ import annotations
 import random
 from dataclasses import dataclass, field
 
-from eng import (EVENTS, FALSY_TOKS, POOL, RET_TOKS, STATE_VALUE_TOKS, TRUTHY_TOKS, Cb, Scn, St, Tr,
+from eng import (MAX_EXC_TAG, EVENTS, FALSY_TOKS, POOL, RET_TOKS, STATE_VALUE_TOKS, TRUTHY_TOKS, Cb, Scn, St, Tr,
                  flatten)
 
 
@@ -312,13 +312,13 @@ def gen_acts(rng: random.Random, P: Profile, scn: Scn, evs, n_ops):
             tid = rng.randint(0, horizon)
             if can_fault(c, tid):
                 busy.setdefault(tid, set()).add(phase_of(c))
-                rows_first.append((c.id, tid, tid, 0, rng.randint(1, 19), []))
+                rows_first.append((c.id, tid, tid, 0, rng.randint(1, MAX_EXC_TAG), []))
     for c in vals:
         if rng.random() < P.p_validator_raise:
             tid = rng.randint(1, horizon)
             if can_fault(c, tid):
                 busy.setdefault(tid, set()).add("validators")
-                rows_first.append((c.id, tid, tid, 0, rng.randint(1, 19), []))
+                rows_first.append((c.id, tid, tid, 0, rng.randint(1, MAX_EXC_TAG), []))
     scn.acts = rows_first + rows_last
 
 
